@@ -116,6 +116,8 @@ pub const SITES: &[&str] = &[
     "sync.atomic.pre_load",
     "sync.atomic.pre_store",
     "sync.atomic.pre_rmw",
+    // destructor of an item of the unmanaged pool (may run inside clear(), under the pool's lock)
+    "harness.udtor",
 ];
 
 /// Sites that lie inside a lock region of the code under test.
